@@ -940,3 +940,98 @@ def r_latts_k0(cx):
     if n == 0:
         cx.ob("R-LATTS-K0", "merc/k_0", False, "merc::new does not derive k_0 from lat_ts", cx.where(f.d["span"]))
     cx.count("R-LATTS-K0", "inserts", n)
+
+
+# ---------------------------------------------------------------------------------------------------------------------
+# R-PARALLELS-SYMMETRIC (C05, C13): lcc treats its two standard parallels alike
+
+@rule("R-PARALLELS-SYMMETRIC", ["C05", "C13"])
+def r_parallels_symmetric(cx):
+    """The cone of lcc is determined by the *set* of its two standard parallels: lat_1=30 lat_2=60 and lat_1=60 lat_2=30
+    are the same projection, and lat_1 = lat_2 is the tangent case. (a) Every branch condition of lcc::new that compares
+    an arithmetic combination of both parallels with a constant is symmetric in them: it tests |phi1 - phi2| or
+    |phi1 + phi2|, not a signed difference (`phi2 - phi1 >= eps` sees a secant cone only when lat_2 > lat_1). (b) The
+    default latitude of origin is phi1 exactly in the tangent case: the arm that makes lat_0 = phi1 is taken on the
+    strength of the same symmetric test |phi1 - phi2| < eps (not of lat_2 being absent: lat_1=lat_2 given explicitly is
+    the tangent case too)."""
+    import guards
+    f = cx.f.fn("inner_op::lcc::new")
+
+    def parallel(t, k):
+        t = mir.strip_refs(t)
+        hit = []
+
+        def vis(y):
+            if y[0] == "call" and isinstance(y[1], str) and y[1] == K.PP + "::lat" and len(y[2]) > 1 and \
+                    mir.strip_refs(y[2][1])[0] == "const" and mir.strip_refs(y[2][1])[2] == k:
+                hit.append(1)
+            return True
+        mir.walk(t, vis)
+        return bool(hit)
+
+    def both_arith(t):
+        """t = a (+|-) b with one side deriving from lat(1) only and the other from lat(2) (possibly defaulted to lat(1))"""
+        t = mir.strip_refs(t)
+        if t[0] == "bin" and t[1] in ("Sub", "Add"):
+            a, b = t[2], t[3]
+            if (parallel(a, 1) and parallel(b, 2)) or (parallel(a, 2) and parallel(b, 1)):
+                return t[1]
+        return None
+    n = 0
+    sym_tests = []
+    for b in sorted(f.reachable()):
+        sw = f.term(b)
+        if sw["k"] != "switch":
+            continue
+        for at in guards.atoms(f, f.operand(sw["discr"], f.end_point(b))):
+            at = mir.strip_refs(at)
+            if at[0] != "bin" or at[1] not in ("Lt", "Le", "Gt", "Ge", "Eq", "Ne"):
+                continue
+            for side in (at[2], at[3]):
+                sd = mir.strip_refs(side)
+                inner, wrapped = sd, False
+                if sd[0] == "call" and isinstance(sd[1], str) and sd[1].rsplit("::", 1)[-1] == "abs" and sd[2]:
+                    inner, wrapped = mir.strip_refs(sd[2][0]), True
+                op = both_arith(inner)
+                if op is None:
+                    continue
+                n += 1
+                ok = wrapped or (op == "Add") or at[1] in ("Eq", "Ne")
+                if ok and op == "Sub":
+                    sym_tests.append(at)
+                cx.ob("R-PARALLELS-SYMMETRIC", "lcc/test%d" % (n - 1), ok,
+                      "the test %s is symmetric in the two standard parallels" % mir.show(at, maxd=2)[:50] if ok else
+                      "lcc::new compares the signed difference of the standard parallels with a constant (%s): the secant "
+                      "cone is recognised for one order of lat_1, lat_2 only; with the other order the cone constant of the "
+                      "tangent case is used" % mir.show(at, maxd=3)[:70], cx.where(sw["span"]))
+    # (b) the arm lat_0 := phi1
+    for (bb, m, key, val) in K.inserts_in(cx.f, f):
+        if m != "real" or key != "lat_0" or val is None:
+            continue
+        v = mir.strip_refs(val)
+        arms = []
+
+        def collect(y, path_facts, depth=0):
+            y = mir.strip_refs(y)
+            if y[0] == "phi" and isinstance(y[1], tuple) and isinstance(y[1][0], int) and depth < 6:
+                reach = f.reachable()
+                preds = [p for p in f.pred[y[1][0]] if p in reach]
+                if len(preds) == len(y[2]):
+                    for p, arm in zip(preds, y[2]):
+                        collect(arm, path_facts | guards.edge_facts(f, p, y[1][0]), depth + 1)
+                    return
+            arms.append((y, path_facts))
+        collect(v, set())
+        for y, facts in arms:
+            if not (parallel(y, 1) and not parallel(y, 2) and not parallel(y, 0)):
+                continue
+            n += 1
+            ok = any(tv and at in [mir.strip_refs(x) for x in sym_tests] and at[1] in ("Lt", "Le") or
+                     (not tv) and at in [mir.strip_refs(x) for x in sym_tests] and at[1] in ("Ge", "Gt")
+                     for at, tv in ((mir.strip_refs(a_), tv_) for a_, tv_ in facts))
+            cx.ob("R-PARALLELS-SYMMETRIC", "lcc/lat_0-default", ok,
+                  "lat_0 defaults to lat_1 on the strength of |lat_1 - lat_2| < eps" if ok else
+                  "lcc::new lets lat_0 default to lat_1 without having tested |lat_1 - lat_2| < eps on that path (e.g. when "
+                  "lat_2 is merely absent): `lat_1=45 lat_2=45` and `lat_1=45` are then different projections",
+                  cx.where(f.term(bb)["span"]))
+    cx.count("R-PARALLELS-SYMMETRIC", "tests", n)
